@@ -161,6 +161,16 @@ class LogsProfile:
                 steps.append({"kind": "reload", "ents": ents, "mode": "plain"})
             plan = {"profile": "logs", "steps": steps, "adv": [rnd.choice([0, 0, 1, 59]) for _ in steps], "long": 0, "lifetime": "long"}
             return plan, self.run(plan, tag)
+        if rnd.random() < 0.06:
+            # several destinations of one list go at once (neighbours in name order among them), one of the files is
+            # then moved away, and later every file is named again
+            key = rnd.choice(["*.*", "*.>=debug", "core.*"])
+            keep = rnd.sample(list(FEW), rnd.choice([0, 1, 1, 2]))
+            steps.append({"kind": "reload", "ents": [[key, list(FEW)]], "mode": "plain"})
+            steps.append({"kind": "reload", "ents": [[key, keep]] if keep else rnd.choice([[], None]), "mode": "plain"})
+            for _ in range(rnd.choice([1, 2])):
+                steps.append({"kind": "rotate", "pick": rnd.randrange(24)})
+            steps.append({"kind": "reload", "ents": [[key, list(FEW)]], "mode": "plain"})
         for _ in range(rnd.randint(1, 5)):
             k = rnd.random()
             if k < 0.55:
